@@ -96,3 +96,26 @@ Theorem C13_binary_pivot_preserves_regularity : forall m n M r c,
   TuModel.regular_bf m n (bpivot m n M r c) = TuModel.regular_bf m n M.
 Proof. exact RegPivot.regular_bf_bpivot_lt. Qed.
 Print Assumptions C13_binary_pivot_preserves_regularity.
+
+(* ---------- the C text of moduloTernary / moduloNonnegative, translated on every run (tools/c2gallina.py -> LeafGen.v,
+   semantics LeafSem.v): for all int arguments except q = INT_MIN the C function has defined behaviour and returns the
+   value of the model used by the pivot theorems above ---------- *)
+From Cmr Require LeafSem LeafGen LeafProofs.
+Theorem C13_moduloTernary_code_is_model : forall p q, LeafProofs.int32 p -> LeafProofs.int32 q -> q <> -2147483648 ->
+  LeafGen.c_moduloTernary p q = Some (modulo_ternary p q).
+Proof. exact LeafProofs.c_moduloTernary_spec. Qed.
+Print Assumptions C13_moduloTernary_code_is_model.
+
+Theorem C13_moduloNonnegative_code_is_model : forall p q, LeafProofs.int32 p -> LeafProofs.int32 q -> q <> -2147483648 ->
+  LeafGen.c_moduloNonnegative p q = Some (modulo_nonneg p q).
+Proof. exact LeafProofs.c_moduloNonnegative_spec. Qed.
+Print Assumptions C13_moduloNonnegative_code_is_model.
+
+From Cmr Require LeafModel LeafJudgeProofs.
+(* an accepted `leaf` record: the function translated from the C text evaluates to the value the compiled function returned
+   (translator and semantics validated against the compiler) and the value meets the specification *)
+Theorem C13_leaf_judge_sound : forall rec, LeafModel.judge_leaf rec = 0 ->
+  exists fn args r rest, LeafJudgeProofs.leaf_input rec = Some ((fn, args, r), rest) /\
+    LeafModel.leaf_gen fn args = Some (Some r) /\ LeafModel.leaf_spec fn args r = true.
+Proof. exact LeafJudgeProofs.judge_leaf_sound. Qed.
+Print Assumptions C13_leaf_judge_sound.
